@@ -296,10 +296,14 @@ func runDet(o *Out, r *Rng, n int, dir string, hist Hist, caseJSON map[string][]
 		}
 		var ops, obs, opNames []string
 		lastSeen := 0
+		failsOK := true // every operation that must fail returned an error; every entry coherent after every op
 		observe := func() error {
 			es, err := entriesOf(cur)
 			if err != nil {
 				return err
+			}
+			if !coherent(es, !cur.IsEncrypted()) {
+				failsOK = false
 			}
 			if !cur.IsEncrypted() { // Lock blanks lastSeed; it is observed again after Unlock
 				lastSeen = lastIdx(cur)
@@ -315,7 +319,6 @@ func runDet(o *Out, r *Rng, n int, dir string, hist Hist, caseJSON map[string][]
 		// returns an error, generate / scan on a locked wallet (must fail), a count that
 		// does not fit an int, Lock / Unlock; each must leave the derivation state alone
 		locked := false
-		failsOK := true // every operation that must fail returned an error
 		password := []byte("pw-c17")
 		mustFail := func(err error) {
 			if err == nil {
@@ -578,10 +581,17 @@ func runIdx(o *Out, r *Rng, n int, dir string, hist Hist, caseJSON map[string][]
 		}
 		nchains0 := nchains
 		var ops, obs, opNames []string
+		locked := false
+		ok := true
 		observe := func() error {
 			cs, err := chains(cur)
 			if err != nil {
 				return err
+			}
+			for _, c := range cs { // every entry coherent after every op (secrets may be absent only while locked)
+				if !coherent(c, false) {
+					ok = false
+				}
 			}
 			it := []string{}
 			for _, c := range cs {
@@ -604,8 +614,6 @@ func runIdx(o *Out, r *Rng, n int, dir string, hist Hist, caseJSON map[string][]
 		// bip44 wallets are also locked and unlocked in between: addresses generated
 		// while locked come from the chain public keys, their secrets are filled in by
 		// Unlock (syncSecrets); after every Unlock all entries must be coherent
-		locked := false
-		ok := true
 		password := []byte("pw-c17")
 		doUnlock := func() error {
 			u, err := cur.Unlock(password)
@@ -901,29 +909,77 @@ func runColl(o *Out, r *Rng, n int, dir string, caseJSON map[string][]map[string
 			want = append(want, ab(cipher.AddressFromPubKey(pk).String()))
 		}
 		split := r.Intn(len(keys) + 1)
+		if c%2 == 0 && split == 0 {
+			split = 1 // the scripted batches need a key the wallet already holds
+		}
 		fn := fmt.Sprintf("c17coll%d.wlt", c)
 		w, err := collection.NewWallet(fn, "c17", wallet.OptionCollectionPrivateKeys(keys[:split]))
 		if err != nil {
 			return err
 		}
 		var cur wallet.Wallet = w
+		allOK := true
+		checkNow := func() error {
+			es, err := entriesOf(cur)
+			if err != nil {
+				return err
+			}
+			allOK = allOK && coherent(es, true)
+			return nil
+		}
+		if err := checkNow(); err != nil {
+			return err
+		}
 		if r.Bool() {
 			if cur, err = saveReload(cur, dir); err != nil {
 				return err
 			}
 		}
-		if _, err := cur.GenerateAddresses(wallet.OptionCollectionPrivateKeys(keys[split:])); err != nil {
+		batch := append([]cipher.SecKey{}, keys[split:]...)
+		if c%2 == 0 {
+			// one batch listing a key the wallet already holds (A) among new keys (B, C):
+			// [A,B,C] / [B,A,C] / [B,C,A]; the wallet keeps every listed key, in order
+			a := keys[r.Intn(split)]
+			for len(batch) < 2 {
+				_, sk, err := cipher.GenerateDeterministicKeyPair(r.Bytes(32))
+				if err != nil {
+					return err
+				}
+				batch = append(batch, sk)
+			}
+			pos := (c / 2) % 3
+			if pos > len(batch) {
+				pos = len(batch)
+			}
+			batch = append(batch[:pos:pos], append([]cipher.SecKey{a}, batch[pos:]...)...)
+		}
+		want = want[:split]
+		for _, sk := range batch {
+			pk, err := cipher.PubKeyFromSecKey(sk)
+			if err != nil {
+				return err
+			}
+			want = append(want, ab(cipher.AddressFromPubKey(pk).String()))
+		}
+		if _, err := cur.GenerateAddresses(wallet.OptionCollectionPrivateKeys(batch)); err != nil {
 			return err
 		}
-		if cur, err = saveReload(cur, dir); err != nil {
+		if err := checkNow(); err != nil {
 			return err
+		}
+		// a wallet that no longer loads is a failure of the case, not of the harness
+		if nw, err := saveReload(cur, dir); err != nil || nw == nil {
+			allOK = false
+		} else {
+			cur = nw
 		}
 		es, err := entriesOf(cur)
 		if err != nil {
 			return err
 		}
-		items = append(items, Tuple(strList(want), strList(addrsOf(es)), B(coherent(es, true))))
-		caseJSON["coll"] = append(caseJSON["coll"], map[string]interface{}{"keys": len(keys), "split": split})
+		items = append(items, Tuple(strList(want), strList(addrsOf(es)), B(allOK && coherent(es, true))))
+		caseJSON["coll"] = append(caseJSON["coll"], map[string]interface{}{"keys": len(keys), "held_before_batch": split, "batch_len": len(batch),
+			"batch_lists_a_held_key": c%2 == 0, "held_key_position_in_batch": (c / 2) % 3, "want": strings.Join(want, " ")})
 		o.Count(fmt.Sprint("coll", want, split), true)
 	}
 	o.Def("cases_coll", "list string * list string * bool", items)
